@@ -1,7 +1,7 @@
 SPECIFICATION Spec
 CONSTANTS
-  Ids = {"A", "B", "C", "D", "E"}
-  InitUp = {"A", "B", "C", "D", "E"}
+  Ids = {"A", "B", "C"}
+  InitUp = {"A", "B"}
   Small = {"s1"}
   Big = {"b1"}
   Fanout = 3
@@ -10,12 +10,13 @@ CONSTANTS
   OnTimeout = "ready"
   OkayRequired = 3
   Budgets = {0}
-  MaxStop = 0
-  Transport = "udp"
+  MaxStop = 1
+  Transport = "tls"
   Redial = "on_failure"
-  MaxReset = 0
-  MaxJoin = 0
+  MaxReset = 1
+  MaxJoin = 1
   UOrder <- MCOrder
 VIEW View
-INVARIANTS Delivered DeliveredStrict Sane
+INVARIANTS Delivered Readiness Sane
+PROPERTIES JoinGetsAll FlushPasses
 CHECK_DEADLOCK FALSE
